@@ -226,7 +226,9 @@ StepCdrop(s, e) ==
         \* try_join_all may cancel the remaining inputs once one of them has failed
         s2 == Chk(s1, r.st = "fin" \/ s.indrop \/ (s.kind = "tja" /\ s.firstErr # 0), DeliveryProp(s.kind),
                   "a held child was discarded while the collection is alive")
-    IN [s2 EXCEPT !.ch = [x \in DOMAIN @ \ {c} |-> @[x]]]
+        \* the slot is vacant now: forget which child its key denoted (keeps the state small in long runs)
+        gone == IF r.key \in DOMAIN s.occ /\ s.occ[r.key] = c THEN {r.key} ELSE {}
+    IN [s2 EXCEPT !.ch = [x \in DOMAIN @ \ {c} |-> @[x]], !.occ = [k \in DOMAIN @ \ gone |-> @[k]]]
 
 StepOdrop(s, e) ==
   LET t == <<e.c, e.k>> IN
